@@ -844,6 +844,75 @@ func usesFn(v any, names map[string]bool) bool {
 // or [get path] — wherever it takes a list, a map or any value. Whatever f does, $.src must read the
 // same afterwards (non-interference of the functions not documented to modify their target).
 func (g *gen) framePlan(f string) []any {
+	call := g.frameCall(f)
+	L := func() any { return g.pick([]string{"$.src.l", "$.src.lm", "$.src.m", "$.src"}) }
+	switch g.r.Intn(3) {
+	case 0:
+		return []any{call}
+	case 1:
+		return []any{call, []any{"size", L()}}
+	}
+	return []any{[]any{"list", call, L()}}
+}
+
+// obsPlan: the value of function f applied to data under $.src (as in framePlan) is STORED, so that it
+// shows in the root after the run: whatever f returns — a text, a list, a copy — must be the same on
+// every execution (oracle b repeats the execution) and, for a modelled f, what the model says.
+func (g *gen) obsPlan(f string) []any {
+	call := g.frameCall(f)
+	switch g.r.Intn(4) {
+	case 0:
+		return []any{"set", "$.asm", call}
+	case 1:
+		return []any{[]any{"set", "$.asm.r0", call}, []any{"set", "$.asm.r1", g.frameCall(f)}}
+	case 2:
+		return []any{[]any{"set", "$.asm.r0", []any{"list", call, []any{"string", g.pick([]string{"$.src.l", "$.src.ls", "$.src.lm", "$.src"})}}}}
+	}
+	return []any{[]any{"set", "$.asm.r0", []any{"each", g.pick([]string{"$.src.l", "$.src.lm", "$.src.ls"}), []any{"set", "@.asm", []any{f, "@.src"}}}}}
+}
+
+// obsRoot: lists, nested lists and maps whose maps have three to six members (the iteration order of a Go
+// map of that size differs from run to run), with unsorted lists beside them.
+func (g *gen) obsRoot() map[string]any {
+	bigMap := func() map[string]any {
+		m := map[string]any{}
+		n := 3 + g.r.Intn(4)
+		keys := []string{"k", "b", "zz", "a", "q", "x", "m", "d", "y"}
+		for i := 0; len(m) < n && i < 40; i++ {
+			var v any
+			switch g.r.Intn(5) {
+			case 0:
+				v = g.strLit()
+			case 1:
+				v = nil
+			case 2:
+				v = map[string]any{"u": g.intLit(), "t": g.r.Bool(), "s": g.strLit()}
+			default:
+				v = g.intLit()
+			}
+			m[keys[g.r.Intn(len(keys))]] = v
+		}
+		return m
+	}
+	l := []any{}
+	for i, n := 0, 1+g.r.Intn(3); i < n; i++ {
+		l = append(l, bigMap())
+	}
+	lm := []any{}
+	for i, n := 0, 2+g.r.Intn(3); i < n; i++ {
+		m := bigMap()
+		m["a"] = int64(g.r.Intn(9))
+		m["x"] = g.pick([]string{"q", "b", "k", "a"})
+		lm = append(lm, m)
+	}
+	nested := []any{[]any{bigMap()}, []any{int64(2), []any{bigMap(), "s"}}}
+	src := map[string]any{"l": l, "lm": lm, "ls": nested, "m": bigMap(), "a": int64(1)}
+	return map[string]any{"src": src}
+}
+
+// frameCall: function f applied to data under $.src handed over by reference — a path or [get path] —
+// wherever it takes a list, a map or any value.
+func (g *gen) frameCall(f string) any {
 	L := func() any {
 		p := g.pick([]string{"$.src.l", "$.src.l", "$.src.ls", "$.src.lm", "$.src.m", "$.src.lm[0]", "$.src"})
 		if g.pct(30) {
@@ -878,13 +947,7 @@ func (g *gen) framePlan(f string) []any {
 	default:
 		call = g.call(f, 1+g.r.Intn(2))
 	}
-	switch g.r.Intn(3) {
-	case 0:
-		return []any{call}
-	case 1:
-		return []any{call, []any{"size", L()}}
-	}
-	return []any{[]any{"list", call, L()}}
+	return call
 }
 
 // frameRoot: unsorted lists (numbers, strings, maps keyed a/x) and maps with null members under $.src.
